@@ -48,4 +48,7 @@ MUTANTS = [
     F("C06", "string record renames the data trace that was already reported", "trace_handlers/trace.py",
       "    if data is not None:\n        parser.pids_names[data.pid] = event.name\n    return event\n\n\ndef handle_trace_string_exec",
       "    if data is not None:\n        parser.pids_names[data.pid] = event.name\n        data.uniqueid = event.name\n    return event\n\n\ndef handle_trace_string_exec", "R6"),
+    F("C06", "framing of a version-2 dump depends on the size of the file", K,
+      "        while True:\n            buf = reader.read(KEVENT_SIZE)\n            if not buf:\n                break\n            yield from_kd_buf(buf)\n\n    def parse_v3",
+      "        here = reader.tell()\n        size = reader.seek(0, io.SEEK_END)\n        reader.seek(here + (size - here) % KEVENT_SIZE)\n        while True:\n            buf = reader.read(KEVENT_SIZE)\n            if not buf:\n                break\n            yield from_kd_buf(buf)\n\n    def parse_v3", "R0"),
 ]
